@@ -1,7 +1,7 @@
 #!/usr/bin/env python3
 """Ad-hoc mutant runner (development aid): tools/mut.py FILE 'old' 'new' -- ID [ID..]
 applies a single textual edit to /repo's working tree, runs the checks, restores the file."""
-import subprocess, sys
+import os, subprocess, sys
 args = sys.argv[1:]
 sep = args.index("--")
 path, old, new = args[:sep]
@@ -12,8 +12,8 @@ if src.count(old) < 1:
     print("pattern not found"); sys.exit(3)
 open(full, "w").write(src.replace(old, new, 1))
 try:
-    r = subprocess.run(["python3", "/verif/bin/check.py"] + ids, capture_output=True, text=True)
-    lines = [l for l in r.stdout.splitlines() if not l.startswith("VIOLATION")]
+    r = subprocess.run(["python3", "/verif/bin/check.py"] + ids, capture_output=True, text=True, env=dict(os.environ, VERIF_SELFTEST="1"))
+    lines = [l for l in r.stdout.splitlines() if not l.startswith("VIOLATION") and not l.startswith("SELFTEST")]
     print("\n".join(lines[:12]))
     if len(lines) > 12: print("... (%d more lines)" % (len(lines) - 12))
     print("rc=%d" % r.returncode, r.stderr[-500:])
